@@ -407,6 +407,18 @@ func moveOutFile(w *bytes.Buffer, param *syntax.StructMember,
 	// If file doesn't exist (e.g. stage just didn't create it)
 	// then report null
 	if info, err := os.Lstat(filePath); os.IsNotExist(err) {
+		// Unless an earlier post-processing run, which was interrupted before
+		// it could leave the symlink behind, already moved it to outs/.
+		outPath := path.Join(outsPath, param.GetOutFilename())
+		if oinfo, oerr := os.Lstat(outPath); oerr == nil && oinfo.Mode().IsRegular() {
+			if relPath, rerr := filepath.Rel(filepath.Dir(filePath), outPath); rerr == nil {
+				_ = os.Symlink(relPath, filePath)
+			}
+			if b, merr := json.Marshal(outPath); merr == nil {
+				_, err := w.Write(b)
+				return err
+			}
+		}
 		_, err := w.Write(nullBytes)
 		return err
 	} else if err != nil {
